@@ -95,10 +95,10 @@ var checks = []checkDef{
 		RealStub:     map[string]string{"real": "simpleshell.Go, TLSFingerprintVerifier, http.DefaultClient, http.DefaultTransport and its clones, crypto/tls both sides, crypto/x509, net/http server", "stub": "network (simnet), clock (synctest), the Shell implementation, the curlrevshell side (record-and-echo handler), certificate authorities and chains"},
 		MustProbe:    []string{"overlapping_calls", "pin_at_intermediate", "pin_at_root", "unpinned_call_after_pinned", "valid_chain_unpinned_ok", "malformed_fp", "wrong_pin", "wrong_pin_after_good_pin_same_host", "shared_host_again", "wrong_pin_after_unpinned_same_host"}},
 	{ID: "C14", Engine: "cmdshellsim", Level: "exploration", Workers: 8, GOMAXPROCS: 2, QuickMS: 40000, ThoroughMS: 600000, SelftestRuns: 100,
-		Rule:        "one evaluation = one real child process run through simpleshell.CmdShell under a generated plan: the child is a puppet (the worker binary re-executed) that writes counted patterns to stdout/stderr, closes descriptors, reads stdin to EOF, waits on observed states and exits with a chosen code; the input reader and the consumer of Output() follow seeded chunk sizes and gates on observed states (child reaped, Go returned, input done), never on sleeps; distinct = hash of the plan; non-trivial = the plan has a gate, a child-side wait, a non-zero exit or more than 4096 bytes of traffic. A plan that shows a violation is run four more times to tell a plan that always fails from an intermittent one",
-		Assumptions: []string{"real kernel processes and pipes: not a simulation; the verdict of the oracle is schedule-independent, so a miss is possible but a false alarm is not", "Linux /proc and FIONREAD on pipes; kernel pipe buffer >= 64 KiB (plans keep un-consumed output below 60000 bytes when the consumer waits for the child's exit)", "not bit-replayable: the replay file is the plan and reproduces through its observed-state gates"},
+		Rule:        "one evaluation = one real child process run through simpleshell.CmdShell under a generated plan: the child is a puppet (the worker binary re-executed) that writes counted patterns to stdout/stderr, closes descriptors, reads stdin to EOF, waits on observed states and exits with a chosen code; the input reader and the consumer of Output() follow seeded chunk sizes and gates on observed states (child reaped, Go returned, input done), never on sleeps; distinct = hash of the plan; non-trivial = the plan has a gate, a child-side wait, a non-zero exit or more than 4096 bytes of traffic. A plan that shows a violation is run four more times (twice if the plan contains a real-time wait) to tell a plan that always fails from an intermittent one. A second family of runs (about one in ten, plus a few 'nap' runs per worker) goes through the entry point the program uses, simpleshell.GoSimple, against an HTTPS/HTTP-2 server inside the worker on loopback that plays curlrevshell's /io side with a pinned fingerprint: the consumer is the handler reading the uploaded output, the input is the response body; in a nap run the child writes more than can be in flight and exits, and the consumer, seen to be behind, stands still for 1.5-2.5 s of real time (the engine's one real-time wait) before it reads on",
+		Assumptions: []string{"real kernel processes and pipes: not a simulation; the verdict of the oracle is schedule-independent, so a miss is possible but a false alarm is not", "Linux /proc and FIONREAD on pipes; kernel pipe buffer >= 64 KiB (plans keep un-consumed output below 60000 bytes when the consumer waits for the child's exit)", "not bit-replayable: the replay file is the plan and reproduces through its observed-state gates", "loopback TCP is available; /proc/<pid>/task/<tid>/syscall is readable (otherwise the 'child blocked in write' gate falls back to a 50 ms wait after each read)"},
 		RealStub:    map[string]string{"real": "simpleshell.CmdShell (NewCmdShell, SetInput, Output, Go), os/exec, kernel process, pipes and scheduler", "stub": "the child (puppet following a plan), the input reader and the consumer (harness code following the plan)"},
-		MustProbe:   []string{"consumer_after_reap", "over_pipe_buffer", "exit_nonzero", "stderr_only", "zero_output", "child_reads_input_to_eof"}},
+		MustProbe:   []string{"consumer_after_reap", "over_pipe_buffer", "exit_nonzero", "stderr_only", "zero_output", "child_reads_input_to_eof", "gosimple_runs", "gosimple_real_nap_after_exit", "backlog_beyond_c2_window_during_nap", "consumer_read_on_child_blocked"}},
 	{ID: "C17", Engine: "fssim", Level: "exploration", QuickMS: 30000, ThoroughMS: 300000, SelftestRuns: 500,
 		Rule:        "one evaluation = one generated case: a directory tree in a simulated fs.FS (regular files, sub-directories, valid and dangling symlinks, named pipes; names with spaces, glob characters, leading dots, several extensions, editor lock/backup names), a filter table (default and user-modified, marker filters so that the first matching pattern is visible), a per-entry fault plan (Stat/Open/Read errors, short reads) and 1-3 Converter.From calls, each made twice; one run in eight materialises the tree in a real temporary directory for the FS==nil path; distinct = hash of configuration and items; non-trivial = some judged call has at least two parts, an ineligible top-level entry or several sources. One run in three edits the filter table (remove, replace, add) between the calls of one Converter, the model following; 'overlap' steps run two or three From calls on one Converter at the same time, each held inside the simulated file system at a seeded operation and released in seeded order (exactly one goroutine runs at a time), and compare each with the same call made alone; one simulated run in six gives the file system a descriptor budget (8, 12 or 16 handles open at once, EMFILE beyond) in a directory with more eligible files than that",
 		Assumptions: []string{"a conforming converter needs far fewer than 8 simultaneously open files (the unchanged code holds one per call)", "overlapping From calls on one Converter fall under 'the result is the same on every call while the files are unchanged' (the program makes such calls: Ctrl+J previews run beside Ctrl+I conversions)", "patterns are well-formed and contain no '/'; names are valid UTF-8", "valid symlinks to regular files are generated only under non-matching names (whether they count as regular files is not judged)", "dangling links under matching non-dot names, faults on the source directory itself and source directories whose own path contains glob characters are outside the statement's quantifier and not generated", "error text is read only to choose a finding's signature"},
